@@ -21,7 +21,9 @@ def custom(vc, spec, tier, seed, replay):
     rc = vc.generic_check(spec2, "C10", tier, seed, replay)
     try:
         agg = {}
-        d = os.path.join(vc.CACHE, "run", "C10")
+        import hashlib
+        d = os.path.join(vc.CACHE, "run", "C10" + ("" if vc.REPO == "/repo" else
+                                                   "-" + hashlib.sha1(vc.REPO.encode()).hexdigest()[:10]))
         for f in sorted(os.listdir(d)):
             if not re.fullmatch(r"(s\d+|corpus)\.tr", f):
                 continue
@@ -68,8 +70,8 @@ SPEC = dict(
     component="determ",
     props_module="Refinery.Props.C10",
     custom=custom,
-    quick=dict(cases=1600, len=24, shards=4),
-    thorough=dict(cases=160000, len=30, shards=16),
+    quick=dict(cases=800, len=24, shards=4),
+    thorough=dict(cases=80000, len=30, shards=16),
     nontrivial=nontrivial,
     rule="cases = 2-5 trace IDs (random 32/16-hex, IDs searched for a small hash value, odd strings incl. the empty one), "
          "each asked at many rates on two independently constructed real samplers (DeterministicSampler: struct+Start and "
